@@ -35,13 +35,13 @@ CHECKS["C15"] = (
 )
 
 CHECKS["C19"] = (
-    "Coq proof (Q, lra, Permutation) about a hand-written executable model; toleranced vm_compute correspondence",
+    "Coq proof (Q, lra, Permutation) about an executable model that the functions regenerated from the source are proved equal to; toleranced vm_compute correspondence",
     "Model/Diagnostics.v defines phase, the arcs on the phase circle (including the wrap arc), max_phase_gap, phase_coverage, "
     "periods_spanned and the MAP index over exact rationals. Theorems (all observation sets): arcs are non-negative, one per observation, "
     "sum to 1; max_phase_gap is one of them, >= each, within [1/n, 1]; max_phase_gap and phase_coverage are invariant under any permutation "
     "of the observations; max_phase_gap is unchanged by time reversal t -> a - t of the observing pattern with any reference epochs "
     "before and after, hence independent of the reference epoch (C19_mpg_time_reversal, C19_mpg_shift_invariant: reflection of the phase circle, "
-    "sorted lists, cyclic gap lists up to order); between 1 and min(n_bins, n_obs) bins are occupied (an observation lies in exactly one bin); the MAP index holds a maximum and is the first one. Each run Coq compares the model with the implementation's "
+    "sorted lists, cyclic gap lists up to order); between 1 and min(n_bins, n_obs) bins are occupied (an observation lies in exactly one bin); the MAP index holds a maximum and is the first one. tools/py2v_diag.py regenerates Gen/DiagGen.v from RVData.phase and the four functions of samples_analysis.py (accepted only in the pinned statement forms) and Props/C19g.v proves the generated definitions equal the model. Each run Coq compares the model with the implementation's "
     "values (1e-9) on generated observation sets with exact bin-edge margins; the predicate adds permuted and time-reversed twins.",
     "Trusted: Coq kernel + vm_compute; astropy Time arithmetic to 1e-9 in phase; numpy sort/histogram/argmax.",
     "DESIGN.md 3 (C19)",
